@@ -72,6 +72,11 @@ Definition dFault : dec fault :=
   | 3 => if a <=? 0 then fail else ret (FPatch (Z.to_pos a) b)
   | 4 => ret (FStatus a)
   | 5 | 6 => ret (FPgWrite k)
+  (* the same four kinds for the give-up execution of handleJobError *)
+  | 11 => if a <=? 0 then fail else ret (FGive (FCreate (Z.to_pos a) b))
+  | 12 => if a <=? 0 then fail else ret (FGive (FDelete (Z.to_pos a) b))
+  | 13 => if a <=? 0 then fail else ret (FGive (FPatch (Z.to_pos a) b))
+  | 14 => ret (FGive (FStatus a))
   | _ => fail
   end.
 
@@ -101,22 +106,24 @@ Definition dOp : dec op :=
   end.
 
 Record history := mkHistory { h_spec : spec; h_st : status; h_pods : list pod; h_pg : option pgphase;
-                             h_queue : bool; h_ops : list op }.
+                             h_queue : bool; h_maxrq : Z; h_ops : list op }.
 
 Definition dHistory : dec history :=
   let* sp := dSpec in let* st := dStatus in let* pods := dPods in let* pg := dOpt dPgPhase in
-  let* q := dBool in let* ops := dList dOp in
-  ret (mkHistory sp st pods pg q ops).
+  (* one token: bit 0 = the job's queue is in the lister; the rest = maxRequeueNum + 1 (0: re-queue for ever) *)
+  let* q := dZ in let* ops := dList dOp in
+  if q <? 0 then fail else ret (mkHistory sp st pods pg (Z.odd q) (q / 2 - 1) ops).
 
 (* what the harness observes after a step *)
 Definition eObs (k : Z) (x : world * bool * bool) : list Z :=
   let '(w, err, wrote) := x in
-  [-100 - k] ++ eBool err ++ eBool wrote ++ eStatus (w_st w) ++ eStatus (v_st w) ++ ePods (w_pods w) ++
+  (* error flag: 1 = the request was re-queued, 2 = the controller gave up on it (handleJobError) *)
+  [-100 - k] ++ [if err then (if q_gave (c_rq (v_ctl w)) then 2 else 1) else 0] ++ eBool wrote ++ eStatus (w_st w) ++ eStatus (v_st w) ++ ePods (w_pods w) ++
   eOpt ePgPhase (w_pg w).
 
 Fixpoint eTrace (k : Z) (l : list (world * bool * bool)) : list Z :=
   match l with [] => [] | x :: r => eObs k x ++ eTrace (k + 1) r end.
 
 Definition run_history (h : history) : list Z :=
-  let w := init_world_q (h_queue h) (h_spec h) (h_st h) (h_pods h) (h_pg h) in
+  let w := init_world_m (h_maxrq h) (h_queue h) (h_spec h) (h_st h) (h_pods h) (h_pg h) in
   eTrace 1 ((w, false, false) :: trace w (h_ops h)).
